@@ -1,6 +1,6 @@
 #!/bin/bash
 # seedcheck.sh <patch.diff> [props...]  -- apply a seeded change to /repo, run the quick checks, undo it.
-P=$1; shift
+P=$(readlink -f "$1"); shift
 cd /verif
 PROPS=${@:-$(python3 -c "import json;print(' '.join(c['property_id'] for c in json.load(open('MANIFEST.json'))['checks']))")}
 if ! git -C /repo apply "$P" 2>/dev/null; then
